@@ -37,12 +37,13 @@ Section Key.
   Variable fmtf : dy -> string.      (* 'f' -1 *)
 
   (* appendValueAsString: per-span key fields (AddAsString) and, since repo commit "fix: whole
-     numbers stringify the same ...", root. key fields as well *)
+     numbers stringify the same ...", root. key fields as well; whole floats print as integers
+     since "fix: whole float64 values contribute their exact integer text to the sample key" *)
   Definition key_str (v : sval) : string :=
     match v with
     | SStr s => s
     | SInt z => dec z
-    | SF64 d => fmtf d
+    | SF64 d => f64_str fmtf d     (* whole numbers below 2^63: the integer text; else 'f' -1 *)
     | SBool b => bool_str b
     | SNil => "<nil>"
     | SOther t => t
